@@ -511,6 +511,20 @@ def r_init_before_use(ctx, prog):
             ok = a0 is not None and a0[0] in ('load', 'load@') and a0[1][0] == 'field' and a0[1][2] == 'rs_cb'
             if c.fn.unit is u:
                 ok = ok or (a0 is not None and a0[0] == 'param')
+            if not ok and a0 is not None and a0[0] == 'call' and a0[1] == 'of_rs_new':
+                ok = True
+            if not ok and a0 is not None and a0[0] in ('load', 'load@') and a0[1][0] in ('global', 'goff'):
+                # a descriptor kept in a (static) variable: every store into that variable must be an of_rs_new() result or NULL
+                gname = a0[1][1]
+                sts = []
+                for fn2 in prog.all_functions:
+                    t3 = Terms(fn2, forward=False)
+                    for i2 in fn2.all_insts():
+                        if i2.op == 'store' and t3.term(i2.ops[1]) in (('global', gname), ('goff', gname, 0)):
+                            sts.append(i2)
+                ok = bool(sts) and all(strip_casts(i2.ops[0]).k == 'null' or const_of(i2.ops[0]) == 0 or
+                                       (strip_casts(i2.ops[0]).k == 'i' and strip_casts(i2.ops[0]).inst.op == 'call' and
+                                        strip_casts(i2.ops[0]).inst.callee == 'of_rs_new') for i2 in sts)
             ctx.instance(R, ok, c, 'descr:%s' % name,
                          '%s reaches the GF tables; its code descriptor argument must be the session\'s rs_cb field '
                          '(only of_rs_new produces those), got %s' % (name, __import__('ofverif.ir', fromlist=['show']).show(a0) if a0 else None))
